@@ -13,8 +13,10 @@
    comment inside a declaration is reported.  Also proved: the token half of [doc_wf_b] for every
    output of `lex`, the ordering part of the tree half for every output of `parse`.
    NOT proved (validated by correspondence + oracle only): that build/analyze keep the tree part,
-   that declaration names end with identifier tokens, and the classification of identifiers by
-   binding kind on well-typed programs ([C15_full_statement]). *)
+   that declaration names end with identifier tokens.  The classification of identifiers by binding
+   kind ([C15_full_statement]) is stated on the model and REFUTED by a witness that the known
+   findings C15-type-use-shadowed-by-local / C15-trailing-comment describe; outside those two
+   classes it is validated by oracle only. *)
 From Coq Require Import Sorting.Sorted.
 From Spl Require Import Model.SemTok Proofs.SemTokProofs Proofs.ParserTotal.
 
@@ -61,6 +63,31 @@ Theorem C15_decls_ordered : forall toks prog,
   EofLast toks -> parse toks = Done prog -> decls_ordered_b (length toks) 0 (pg_decls prog) = true.
 Proof. exact parse_decls_ordered. Qed.
 Print Assumptions C15_decls_ordered.
+
+(* ---- the classification part ---- *)
+(* In a document without diagnostics the answer reports (a) every keyword / number / comment of the
+   text with its lexical class and (b) every identifier occurrence of the syntax tree ([doc_occs]:
+   the token index and the class prescribed by the occurrence's syntactic role - declared name with
+   the declaration modifier, type position, variable position resolved in the procedure's own local
+   table, callee) with that class.  With C15_coincide / C15_increasing / C15_lexical_class (nothing
+   else is reported, in text order) this pins the whole answer. *)
+Definition C15_full_statement : Prop :=
+  forall t d data,
+    new_doc t = Done d -> doc_errors d = Done [] -> semantic_tokens d = SOk data ->
+    (forall j k c, nth_error (d_toks d) j = Some k -> map_class (tk k) = Some c ->
+                   In (tok_view (d_text d) (k, c)) (decode data)) /\
+    (forall j k c, In (j, Some c) (doc_occs d) -> nth_error (d_toks d) j = Some k ->
+                   In (tok_view (d_text d) (k, c)) (decode data)).
+
+(* The faithful model REFUTES it: in `type t = int; proc p(t: t) { } proc main() { }` (no diagnostics)
+   the second `t` of `t: t` stands in type position and is reported as a parameter, because the handler
+   classifies identifiers by looking their spelling up (known finding C15-type-use-shadowed-by-local;
+   part (a) fails as well, on comments behind the last declaration: C15-trailing-comment).  The check
+   replays this witness on the implementation and decides both parts of the statement for every
+   generated well-typed program (judge command 50), in agreement with the independent python oracle. *)
+Theorem C15_full_statement_refuted : ~ C15_full_statement.
+Proof. exact semtok_full_statement_refuted. Qed.
+Print Assumptions C15_full_statement_refuted.
 
 (* ---- non-vacuity: `type t = int; // é€😀 c` LF `proc f(p: t) { var v: t; v := p; }` ---- *)
 Definition c15_text : text :=
